@@ -190,9 +190,18 @@ extern "C" void vp_io_atomic()
     * last output, recorded in the md5 side file" (no new backup by design) is C14's subject */
    vp_assume(!vp_md5_matches_O);
    vp_mode      = M_ATOMIC;
+   /* run modes concrete per instance (they prune whole phases of the protocol), data and schedule symbolic */
+#ifdef NOBACKUP
+   vp_no_backup = (NOBACKUP != 0);
+#else
    vp_no_backup = vp_bool();
+#endif
    vp_fmt_fails = vp_bool();
+#ifdef IFCH
+   cpd.if_changed = (IFCH != 0);
+#else
    cpd.if_changed = vp_bool();
+#endif
    cpd.do_check   = false;
    if (cpd.if_changed) { cpd.bout = &vp_bout; }
    vp_schedule(CRASH != 0, NFAULTS);
